@@ -59,6 +59,21 @@ def rule_who_may(prog):
                 c.loc(sp[fn][0]["sp"]) if fn in sp else "",
                 "requests are handled inline by the reader loop; spawning elsewhere breaks response order "
                 "(found %d spawn(s))" % len(sp.get(fn, [])), ("spawn",))
+    # one FramedRead over stdin for all phases (re-creating it drops bytes that were read but not yet decoded)
+    fr = []
+    for b in c.bodies:
+        if "/tests" in c.file_of(b["sp"]) or b["d"].startswith("io::tests"):
+            continue
+        for n in hir.nodes(b["body"], "Call"):
+            d = hir.callee_display(n) or ""
+            if "FramedRead" in d and last(d) in ("new", "with_capacity"):
+                fr.append((b, n))
+        for n in hir.nodes(b["body"], "MethodCall"):
+            if n["m"] in ("into_inner", "into_parts") and "FramedRead" in c.tstr(n["recv"]["t"]):
+                fr.append((b, n))
+    out.add("server::LanguageServer::run", "exactly one FramedRead is created for the session and never taken apart",
+            len(fr) == 1 and fr[0][0]["d"] == "server::LanguageServer::run", c.loc(fr[-1][1]["sp"]) if fr else "",
+            "found %d construction/decomposition site(s); a second reader loses the bytes buffered by the first" % len(fr), ("framed",))
     # Response literals only in impl PreparedResponse; PreparedResponse::new only in Request::split
     for b in c.bodies:
         if "_serde" in b["d"]:
@@ -297,6 +312,29 @@ def rule_lifecycle(prog):
             for bd in hir.pat_bindings(s["pat"]):
                 if "mpsc::Sender<" in c.tstr(bd["bt"]) or "mpsc::bounded::Sender<" in c.tstr(bd["bt"]):
                     senders["%s#%s" % (bd["name"], bd["id"])] = i
+    # any other await of a JoinHandle (early-return paths)
+    for i, s_ in enumerate(seq):
+        for aw in hir.nodes(s_, "Await"):
+            if "JoinHandle" not in c.tstr(aw["e"]["t"]):
+                continue
+            if join_i is not None and i == join_i:
+                continue
+            live = []
+            for sname, si in senders.items():
+                if si >= i:
+                    continue
+                rel = False
+                for s2 in seq[:i]:
+                    for n2 in hir.nodes(s2, "Call"):
+                        for a2 in n2.get("args", []):
+                            a2_ = hir.strip(a2)
+                            if a2_.get("k") == "Path" and place(a2_) == sname:
+                                rel = True
+                if not rel:
+                    live.append(sname.split("#")[0])
+            out.add("server::LanguageServer::run", "task handle awaited only after all senders were released", not live, c.loc(aw["sp"]),
+                    "a task handle is awaited while sender(s) %s are still alive in `run`: the task's receive loop never ends and "
+                    "the server hangs instead of terminating" % live, ("join",))
     for sname in sorted(senders):
         released = None
         for i, s in enumerate(seq[: join_i if join_i is not None else len(seq)]):
@@ -450,7 +488,7 @@ def rule_codec(prog):
                     sides = [hir.strip(cond["l"]), hir.strip(cond["r"])]
                     lens = [x for x in sides if x.get("k") == "MethodCall" and x["m"] == "len" and place(x["recv"]) == src]
                     others = [place(x) for x in sides if place(x)]
-                    if lens and others and cond["op"] == "<" and sides[0] is lens[0]:
+                    if lens and others and ((cond["op"] == "<" and sides[0] is lens[0]) or (cond["op"] == ">" and sides[1] is lens[0])):
                         guard = (i, others[0])
     out.add("LSCodec::decode", "nothing is consumed from the buffer before the last `return Ok(None)`",
             first_mut is not None and last_none is not None and last_none < first_mut, c.loc(dec["sp"]),
@@ -533,6 +571,11 @@ def rule_broker(prog):
             if place(n["recv"]) == docs and n["m"] in ("insert", "entry", "remove", "get", "get_mut", "contains_key") and n["args"]:
                 key = n["args"][0]
                 bad = [x["m"] for x in hir.nodes(key, "MethodCall") if x["m"] in lossy and hir.adt_path(c, x["recv"]["t"]) == "url::Url"]
+                # key computed by a local helper: look into its body
+                for call in hir.nodes(key, "Call"):
+                    hb = prog.body(hir.callee(call) or "")
+                    if hb is not None:
+                        bad += [x["m"] for x in hir.nodes(hb["body"], "MethodCall") if x["m"] in lossy and hir.adt_path(c, x["recv"]["t"]) == "url::Url"]
                 nkeys += 1
                 out.add("document::broker", "%s: docs.%s key is an injective function of the URI" % (name, n["m"]), not bad,
                         c.loc(n["sp"]), "the key is derived with the lossy accessor Url::%s(): URIs that differ only in "
@@ -541,19 +584,28 @@ def rule_broker(prog):
         out.missing("docs map operations (found %d)" % nkeys)
     # diagnostics only when announced
     notes = [n for n in hir.nodes(b["body"], "Call") if hir.callee_display(n) == "document::notify"]
+    flag_ids = set()
+    for pp in b["params"]:
+        for bd in hir.pat_bindings(pp):
+            if c.tstr(bd["bt"]) == "bool":
+                flag_ids.add(bd["id"])
+    # async fn: parameters are re-bound inside the coroutine (`let x = x;`)
+    for l in hir.nodes(b["body"], "Let"):
+        if l["pat"].get("k") == "Binding" and l.get("init") is not None:
+            pl0 = hir.path_local(l["init"])
+            if pl0 and pl0["id"] in flag_ids:
+                flag_ids.add(l["pat"]["id"])
     for n in notes:
         guarded = False
         for x, parents in hir.walk(b["body"]):
             if x is n:
-                for i, p in enumerate(parents):
+                for p in parents:
                     if p.get("k") == "If":
                         pl = hir.path_local(p["cond"])
-                        nxt = parents[i + 1] if i + 1 < len(parents) else n
-                        if pl and pl["name"] == "send_diagnostics" and nxt is hir.strip(p["then"]) or \
-                                (pl and pl["name"] == "send_diagnostics" and _contains(p["then"], n)):
+                        if pl and pl["id"] in flag_ids and _contains(p["then"], n):
                             guarded = True
         out.add("document::broker", "diagnostics are published only if the client announced support", guarded, c.loc(n["sp"]),
-                "`notify` must be inside `if send_diagnostics`", ("diag",))
+                "`notify` must be inside `if <the broker's diagnostics flag>`", ("diag",))
     out.add("document::broker", "diagnostics are published after Open and after Change", len(notes) == 2, c.loc(b["sp"]),
             "found %d notify call(s)" % len(notes), ("diag",))
     who = [x for x in c.bodies if any(hir.callee_display(n) == "document::notify" for n in hir.nodes(x["body"], "Call"))]
@@ -626,6 +678,45 @@ def rule_text_sync(prog):
         ok = (rng or "").endswith(".range") and (txt or "").endswith(".text") and rng.split(".")[0] == txt.split(".")[0]
         out.add("document::to_text_changes", "the temporary text receives the same range and text as the TextChange", ok,
                 c.loc(rr[0]["sp"]), "range %s text %s" % (rng, txt), ("batch",))
+    # every String whose length/positions feed a TextChange.range inside the per-change closure is the temp text
+    clos = [n for n in hir.nodes(b["body"], "Closure")]
+    if clos and temp:
+        clo = clos[0]
+        inner_defs = set()
+        for l in hir.nodes(clo["body"], "Let"):
+            for bd in hir.pat_bindings(l["pat"]):
+                inner_defs.add(bd["id"])
+        for pp in clo["params"]:
+            for bd in hir.pat_bindings(pp):
+                inner_defs.add(bd["id"])
+        outer = {}
+        for l in hir.nodes(b["body"], "Let"):
+            if l.get("init") is not None:
+                for bd in hir.pat_bindings(l["pat"]):
+                    if bd["id"] not in inner_defs:
+                        outer[bd["id"]] = l["init"]
+        bad = None
+        for st in hir.nodes(clo["body"], "Struct"):
+            if (st.get("adt") or "") != "spl_frontend::TextChange":
+                continue
+            for fl in st["fields"]:
+                if fl["name"] != "range":
+                    continue
+                for pth in hir.nodes(fl["e"], "Path"):
+                    r = pth["res"]
+                    if r.get("k") == "Local" and r["id"] in outer and "%s#%s" % (r["name"], r["id"]) != temp:
+                        # a value computed before the loop: stale once an earlier change of the batch was applied
+                        if any(m_["m"] == "len" or (hir.callee_display(m_) or "").startswith("document::") for m_ in hir.nodes(outer[r["id"]]) if m_.get("k") in ("MethodCall", "Call")):
+                            bad = pth
+                for mc in hir.nodes(fl["e"], "MethodCall"):
+                    if mc["m"] == "len" and "String" in c.tstr(mc["recv"]["t"]) or mc["m"] == "len" and c.tstr(mc["recv"]["t"]).endswith("str"):
+                        pl_ = place(mc["recv"])
+                        if pl_ and pl_ != temp:
+                            bad = mc
+        out.add("document::to_text_changes", "change ranges are computed from the advancing temporary text only", bad is None,
+                c.loc(bad["sp"]) if bad else c.loc(b["sp"]),
+                "a range bound is derived from a text/length captured before the batch was processed: stale as soon as an earlier "
+                "change of the same notification changed the length", ("batch",))
     # UTF16: column counters in as_position / get_insertion_index
     for fn in ("as_position", "get_insertion_index"):
         fb = prog.body("lsp4spl::document::" + fn)
